@@ -274,6 +274,11 @@ impl Run {
         if self.only.is_some() {
             return true;
         }
+        // development aid (coverage runs, smoke tests): VERIF_CASE_SCALE=0.1 runs a tenth of the cases
+        let cases = match std::env::var("VERIF_CASE_SCALE").ok().and_then(|v| v.parse::<f64>().ok()) {
+            Some(f) if f > 0.0 => ((cases as f64 * f).ceil() as u64).max(1),
+            _ => cases,
+        };
         let t0 = Instant::now();
         let workers = self.workers.min(cases.max(1) as usize).max(1);
         let per = cases.div_ceil(workers as u64);
